@@ -7,7 +7,9 @@ import "github.com/mlange-42/arche/ecs"
 // HooksOn reports whether the verif hooks are compiled in.
 const HooksOn = false
 
-func hookInv(w *ecs.World) error              { return nil }
-func hookShape(w *ecs.World) (string, string) { return "", "" }
-func hookIDValue(id ecs.ID) int               { return -1 }
-func hookTables(w *ecs.World) (int, int, int) { return 0, 0, 0 }
+func hookInv(w *ecs.World) error                            { return nil }
+func hookShape(w *ecs.World) (string, string)               { return "", "" }
+func hookIDValue(id ecs.ID) int                             { return -1 }
+func hookTables(w *ecs.World) (int, int, int)               { return 0, 0, 0 }
+func hookLocate(w *ecs.World, e ecs.Entity) (int, int, int) { return -1, 0, 0 }
+func hookCapSum(w *ecs.World) int                           { return 0 }
